@@ -117,6 +117,13 @@ Definition quoting_tm (t : tmapdef) : bool :=
   mkind_eqb (m_kind (t_subj t)) KQuoted && (match m_tt (t_subj t) with None => true | _ => false end)
   && forallb plain_graph (t_sgraphs t) && forallb plain_pom (t_poms t) && (match t_sjoins t with [] => true | _ => false end).
 
+(* the quoted triples map is a plain triples map of the document *)
+Definition quoted_ok (d : document) (t : tmapdef) : bool :=
+  if quoting_tm t then
+    match find (fun q => ueqb (t_id q) (m_value (t_subj t))) d with Some q => plain_tm q | None => false end
+  else plain_tm t.
+Definition quoted_doc (d : document) : bool := forallb (quoted_ok d) d && nodupb (map t_id d).
+
 (* the end-to-end theorem of C01 applies to this document and configuration *)
 Definition theorem_applies (nquads : bool) (d : document) : bool :=
   forallb plain_tm d && match normalise d with Ok rules => forallb simple_ruleb rules | Err _ => false end.
